@@ -32,7 +32,7 @@ def parseBits (s : String) : Option (List Bool) :=
 def parseKey (tok : String) : Option (Option PubKey) :=
   match tok.splitOn ":" with
   | ["-"] => some none
-  | ["bad", _] => some none
+  | ["bad", h] => (hx h).map fun b => if b.isEmpty then none else some (.garbage b)
   | ["multi", thr, bits, ks] =>
     match thr.toNat?, parseBits bits, (ks.splitOn ",").mapM ofHex with
     | some t, some b, some k => some (some (.multi k b t))
